@@ -28,6 +28,7 @@ type c15Plan struct {
 	KeepAlive     bool     `json:"keep_alive"` // POST only (not replayable), target keeps connections open
 	Reqs          []c15Req `json:"reqs"`
 	Burst         int      `json:"burst"` // > 0: first this many requests at once to a target that never answers
+	Restart       bool     `json:"restart,omitempty"` // the proxy is restarted from its state file after the deploy: the faults meet the restored service
 	Prefix        bool     `json:"prefix,omitempty"` // the service is mounted below /app (prefix stripped before forwarding, the CLI default)
 }
 
@@ -43,6 +44,7 @@ func c15Gen(t *rapid.T) c15Plan {
 	p.ErrPages = rapid.IntRange(0, 2).Draw(t, "err-pages")
 	p.KeepAlive = rapid.Bool().Draw(t, "keep-alive")
 	p.Prefix = rapid.IntRange(0, 2).Draw(t, "prefix") == 0
+	p.Restart = rapid.IntRange(0, 3).Draw(t, "restart") == 0
 	n := rapid.IntRange(1, 6).Draw(t, "nreqs")
 	for i := 0; i < n; i++ {
 		rq := c15Req{Fault: rapid.SampledFrom(c15Faults).Draw(t, "fault")}
@@ -126,6 +128,18 @@ func c15Run(t *testing.T, p c15Plan) (res vfResult) {
 			return
 		}
 		synctest.Wait()
+		if p.Restart {
+			nr := vfNewRouter(vfPathOf(r))
+			if err := nr.RestoreLastSavedState(); err != nil {
+				res.failf("restore-failed", "%v", err)
+				return
+			}
+			vfRemove(r, "svc")
+			w.adopt(nr)
+			r = nr
+			synctest.Wait()
+			res.label("restored-from-state-file")
+		}
 		f := w.front(r, "front:80")
 		timeout := vfMs(p.RespTimeoutMs)
 		interesting := false
